@@ -111,6 +111,26 @@ Proof.
   - reflexivity.
 Qed.
 
+Lemma scheme_rem_usv input sch rem : usv_list input ->
+  parse_scheme CUrlParser (input_new_trim_c0 input) = Some (sch, rem) -> usv_list rem.
+Proof.
+  intros Hu Hs. destruct (parse_scheme_suffix _ _ _ _ Hs) as [pre0 Hpre].
+  assert (usv_list (input_new_trim_c0 input)) as Ht.
+  { unfold input_new_trim_c0, trim_matches. apply usv_rev.
+    destruct (drop_while_spec is_c0_or_space (rev (drop_while is_c0_or_space input))) as (a & Ha & _).
+    destruct (drop_while_spec is_c0_or_space input) as (a0 & Ha0 & _).
+    rewrite Ha0 in Hu. apply usv_app in Hu. destruct Hu as [_ Hu].
+    apply usv_rev in Hu. rewrite Ha in Hu. apply usv_app in Hu. tauto. }
+  rewrite Hpre in Ht. apply usv_app in Ht. tauto.
+Qed.
+
+Lemma split_prefix_str_usv pfx : forall l r, usv_list l -> inp_split_prefix_str pfx l = Some r -> usv_list r.
+Proof.
+  induction pfx as [|c pfx IH]; intros l r Hu H; cbn [inp_split_prefix_str] in H; [inversion H; subst; exact Hu|].
+  destruct (inp_next l) as [[d t]|] eqn:En; [|discriminate]. destruct (d =? c); [|discriminate].
+  exact (IH t r (inp_next_usv l d t Hu En) H).
+Qed.
+
 (* ================= the canonical form ================= *)
 Section Auth.
 Variable dbg : bool.
@@ -214,6 +234,185 @@ Proof.
     + replace (nfirstn (nlen sch) ((((sch ++ [58]) ++ [47; 47]) ++ ui_text ui) ++ hd h)) with sch in Hpt; [exact Hpt|].
       rewrite <- !app_assoc. symmetry. apply nfirstn_app_len.
   - unfold auth_url. f_equal; rewrite ?nlen_app; unfold nlen; cbn [length]; lia.
+Qed.
+
+(* ---------- L3 ---------- *)
+Lemma hi_some h : h <> HDomain [] -> hi_eqb (hi_of_host h) HI_None = false.
+Proof. destruct h as [[|d0 d]|a|pcs]; cbn; congruence. Qed.
+
+Lemma digit_plain sp c : is_digit c = true -> plainc sp c = true.
+Proof. unfold is_digit, plainc, auth_delim, is_tnl. destruct sp; lia. Qed.
+
+Lemma port_text_scan sp pt X : port_ok None pt \/ True -> tail_ok X ->
+  (match pt with Some p => p <= 65535 | None => True end) ->
+  forall count last, scan_last_at sp (port_text pt ++ X) count last = last.
+Proof.
+  intros _ HX Hp count last. destruct pt as [p|]; cbn [port_text app].
+  - change (58 :: decimal p ++ X) with ((58 :: decimal p) ++ X). rewrite scan_plain.
+    + apply scan_stop. apply tail_stop. exact HX.
+    + cbn [forallb]. replace (plainc sp 58) with true by (destruct sp; reflexivity). cbn [andb].
+      apply (forallb_impl is_digit); [apply digit_plain|]. exact (proj2 (port_rt p Hp)).
+  - apply scan_stop. apply tail_stop. exact HX.
+Qed.
+
+Lemma auth_scan st h pt X : host_ok hp hpo hd st h -> (h = HDomain [] -> pt = None) ->
+  (match pt with Some p => p <= 65535 | None => True end) -> tail_ok X ->
+  forall count last, scan_last_at (st_is_special st) (hd h ++ port_text pt ++ X) count last = last.
+Proof.
+  intros Hh Hemp Hp HX. destruct Hh as [[-> _]|(Hne & Ht & _)].
+  - rewrite (hd_empty hp hpo hd HOK). cbn [app]. apply port_text_scan; [right; exact I | exact HX | exact Hp].
+  - apply host_text_scan; [exact Ht|]. apply port_text_scan; [right; exact I | exact HX | exact Hp].
+Qed.
+
+Lemma port_ok_le dflt pt : port_ok dflt pt -> match pt with Some p => p <= 65535 | None => True end.
+Proof. destruct pt; [intros [H _]; exact H | tauto]. Qed.
+
+Lemma ads_canon sch ui h pt p q f : auth_ok STNotSpecial sch ui h pt p q f ->
+  after_double_slash dbg hp hpo hd ovr CUrlParser STNotSpecial (nlen sch) (sch ++ [58])
+    (ui_text ui ++ hd h ++ port_text pt ++ pth_text p ++ qf_text q f)
+  = POk (auth_url sch ui h pt p q f).
+Proof.
+  intros K. destruct K as [Ksch Kst Kui Kh Kemp Kpt Kp Kq Kf Kb Kbq Kbf].
+  assert (qh_ok (qf_text q f)) as Hqf by (unfold qf_text; destruct q; destruct f; cbn; auto).
+  pose proof (pth_tail p _ Hqf) as Htail.
+  pose proof (front_len sch ui h pt) as FL. pose proof (ui_ulen_le ui) as UL.
+  assert (nlen ((sch ++ [58]) ++ [47; 47]) = nlen sch + 3) as L0 by len_lia.
+  unfold after_double_slash.
+  rewrite parse_userinfo_canon; [| exact Kui | | lia].
+  2:{ apply (auth_scan STNotSpecial h pt _ Kh (fun E => proj2 (Kemp E)) (port_ok_le _ _ Kpt) Htail). }
+  cbn [pbind]. rewrite to_u32_ok by (rewrite nlen_app; lia). cbn [pbind].
+  rewrite phap_unfold.
+  rewrite (parse_host_canon hp hpo hd HOK STNotSpecial eq_refl h pt _ Kh (fun E => proj2 (Kemp E)) Htail). cbn [pbind].
+  rewrite (hap_tail_canon hp hpo hd STNotSpecial (nlen sch) _ h pt _ Kh (fun E => proj2 (Kemp E))); [| | exact Htail | rewrite nlen_app; lia].
+  2:{ replace (nfirstn (nlen sch) ((((sch ++ [58]) ++ [47; 47]) ++ ui_text ui) ++ hd h)) with sch; [exact Kpt|].
+      rewrite <- !app_assoc. symmetry. apply nfirstn_app_len. }
+  cbn [pbind]. rewrite front_eq.
+  assert (hi_eqb (hi_of_host h) HI_None
+          && negb (nlen ((sch ++ [58]) ++ [47; 47]) =? nlen (((sch ++ [58]) ++ [47; 47]) ++ ui_text ui)) = false) as Ee.
+  { destruct Kh as [[-> _]|(Hne & _)].
+    - destruct (Kemp eq_refl) as [-> _]. cbn [ui_text]. rewrite app_nil_r. rewrite N.eqb_refl. apply andb_false_r.
+    - rewrite (hi_some h Hne). reflexivity. }
+  rewrite Ee. rewrite to_u32_ok by exact Kb. cbn [pbind].
+  rewrite pps_canon by assumption. cbn [pbind]. fold (auth_pre sch ui h pt p).
+  rewrite wqf_auth; [| lia | apply front_css].
+  rewrite (pqf_canon ovr STNotSpecial (nlen sch) (auth_pre sch ui h pt p) q f); try assumption.
+  - cbn [pbind]. unfold auth_url, auth_ser. f_equal. f_equal; rewrite ?nlen_app; unfold nlen; cbn [length]; lia.
+  - unfold auth_pre. rewrite <- app_assoc. rewrite front_sch. apply query_enc_nonspecial. exact Kst.
+Qed.
+
+(* ---------- every byte of the canonical serialization is ASCII above U+0020 ---------- *)
+Definition okc (c : N) : bool := above_space c && (c <? 128).
+
+Lemma okc_above l : forallb okc l = true -> forallb above_space l = true.
+Proof. apply forallb_impl. intros c H. unfold okc in H. apply andb_true_iff in H. tauto. Qed.
+
+Lemma okc_ascii l : forallb okc l = true -> ascii l.
+Proof.
+  rewrite forallb_forall. intros H. apply Forall_forall. intros c Hc. specialize (H c Hc).
+  unfold okc in H. apply andb_true_iff in H. unfold is_ascii. lia.
+Qed.
+
+Lemma okc_of l : forallb above_space l = true -> ascii l -> forallb okc l = true.
+Proof.
+  rewrite !forallb_forall. intros H1 H2 c Hc. unfold okc. rewrite (H1 c Hc). cbn [andb].
+  unfold ascii in H2. rewrite Forall_forall in H2. specialize (H2 c Hc). unfold is_ascii in H2. lia.
+Qed.
+
+Lemma clean_okc S l : kept_sat S above_space = true -> clean S l = true -> forallb okc l = true.
+Proof. intros HS Hc. apply okc_of; [exact (clean_forallb _ _ l HS Hc) | exact (clean_ascii S l Hc)]. Qed.
+
+Lemma kept_USERINFO_above : kept_sat T_USERINFO above_space = true. Proof. vm_compute. reflexivity. Qed.
+Lemma kept_query_set_above st : kept_sat (query_set st) above_space = true.
+Proof. unfold query_set. destruct (st_is_special st); [exact kept_SQUERY_above | exact kept_QUERY_above]. Qed.
+
+Lemma ui_text_okc ui : ui_ok ui -> forallb okc (ui_text ui) = true.
+Proof.
+  destruct ui as [|u|u p]; cbn [ui_ok ui_text]; [reflexivity| |].
+  - intros [Hu _]. rewrite forallb_app, (clean_okc _ _ kept_USERINFO_above Hu). reflexivity.
+  - intros (Hu & Hp & _). rewrite forallb_app. cbn [forallb]. rewrite forallb_app.
+    rewrite (clean_okc _ _ kept_USERINFO_above Hu), (clean_okc _ _ kept_USERINFO_above Hp). reflexivity.
+Qed.
+
+Lemma host_okc st h : host_ok hp hpo hd st h -> forallb okc (hd h) = true.
+Proof.
+  intros [[-> _]|(_ & Ht & _ & Ha)]; [rewrite (hd_empty hp hpo hd HOK); reflexivity|].
+  apply okc_of; [exact Ha | exact (proj1 Ht)].
+Qed.
+
+Lemma port_text_okc dflt pt : port_ok dflt pt -> forallb okc (port_text pt) = true.
+Proof.
+  destruct pt as [p|]; [|reflexivity]. intros [Hp _]. cbn [port_text forallb]. replace (okc 58) with true by reflexivity.
+  cbn [andb]. apply (forallb_impl is_digit); [|exact (proj2 (port_rt p Hp))].
+  intros c Hc. unfold okc, above_space, is_c0_or_space, is_digit in *. lia.
+Qed.
+
+Lemma good_seg_okc s : good_seg s = true -> forallb okc s = true.
+Proof. intros H. destruct (good_seg_parts s H) as (Hc & _). exact (clean_okc _ _ kept_PATH_above Hc). Qed.
+
+Lemma pth_text_okc p : pth_ok p -> forallb okc (pth_text p) = true.
+Proof.
+  destruct p as [[segs last]|]; [|reflexivity]. intros [Hs Hl]. cbn [pth_text]. unfold path_text. cbn [forallb].
+  replace (okc 47) with true by reflexivity. cbn [andb]. rewrite forallb_app, (good_seg_okc last Hl), andb_true_r.
+  induction segs as [|s segs IH]; [reflexivity|].
+  cbn [forallb] in Hs. apply andb_true_iff in Hs. destruct Hs as [H1 H2].
+  unfold segs_text. cbn [map concat]. fold (segs_text segs). rewrite !forallb_app. rewrite (good_seg_okc s H1), (IH H2). reflexivity.
+Qed.
+
+Lemma qf_text_okc st q f : opt_clean (query_set st) q -> opt_clean T_FRAGMENT f -> forallb okc (qf_text q f) = true.
+Proof.
+  intros Hq Hf. unfold qf_text. rewrite forallb_app. apply andb_true_iff. split.
+  - destruct q as [x|]; [|reflexivity]. cbn [qf_qtext forallb]. rewrite (clean_okc _ _ (kept_query_set_above st) Hq). reflexivity.
+  - destruct f as [y|]; [|reflexivity]. cbn [qf_ftext forallb]. rewrite (clean_okc _ _ kept_FRAGMENT_above Hf). reflexivity.
+Qed.
+
+Lemma scheme_okc sch : forallb scheme_out_char sch = true -> forallb okc sch = true.
+Proof.
+  apply forallb_impl. intros c H. unfold scheme_out_char, is_lower, is_digit, okc, above_space, is_c0_or_space in *. lia.
+Qed.
+
+Lemma auth_ser_okc st sch ui h pt p q f : auth_ok st sch ui h pt p q f -> forallb okc (auth_ser sch ui h pt p q f) = true.
+Proof.
+  intros K. destruct K as [Ksch Kst Kui Kh Kemp Kpt Kp Kq Kf Kb Kbq Kbf].
+  unfold scheme_canon in Ksch. apply andb_true_iff in Ksch. destruct Ksch as [_ Hall].
+  unfold auth_ser, auth_pre, auth_front. rewrite !forallb_app.
+  rewrite (scheme_okc sch Hall), (ui_text_okc ui Kui), (host_okc st h Kh), (port_text_okc _ pt Kpt), (pth_text_okc p Kp),
+    (qf_text_okc st q f Kq Kf). reflexivity.
+Qed.
+
+Lemma auth_ser_shape sch ui h pt p q f :
+  auth_ser sch ui h pt p q f = sch ++ 58 :: 47 :: 47 :: ui_text ui ++ hd h ++ port_text pt ++ pth_text p ++ qf_text q f.
+Proof. unfold auth_ser, auth_pre, auth_front. rewrite <- !app_assoc. reflexivity. Qed.
+
+(* L3 for the class *)
+Theorem reparse_auth_form sch ui h pt p q f : auth_ok STNotSpecial sch ui h pt p q f ->
+  parse_url dbg hp hpo hd ovr None (auth_ser sch ui h pt p q f) = POk (auth_url sch ui h pt p q f).
+Proof.
+  intros K. pose proof (auth_ser_okc _ _ _ _ _ _ _ _ K) as Hokc. pose proof (ads_canon _ _ _ _ _ _ _ K) as Hads.
+  destruct K as [Ksch Kst Kui Kh Kemp Kpt Kp Kq Kf Kb Kbq Kbf].
+  unfold parse_url. rewrite trim_c0_id by (apply all_above_edge; apply okc_above; exact Hokc).
+  rewrite auth_ser_shape. rewrite parse_scheme_canon by exact Ksch.
+  unfold parse_with_scheme. rewrite Kst.
+  rewrite to_u32_ok by (rewrite front_len in Kb; lia). cbn [pbind].
+  unfold parse_non_special. unfold s_ss. cbn [inp_split_prefix_str].
+  rewrite inp_next_cons by reflexivity. replace (47 =? 47) with true by reflexivity.
+  rewrite inp_next_cons by reflexivity. replace (47 =? 47) with true by reflexivity.
+  exact Hads.
+Qed.
+
+(* L1 for the class, from the input *)
+Theorem parse_auth_out input sch rem rem' u : usv_list input ->
+  parse_scheme CUrlParser (input_new_trim_c0 input) = Some (sch, rem) ->
+  scheme_type_of sch = STNotSpecial -> inp_split_prefix_str s_ss rem = Some rem' ->
+  parse_url dbg hp hpo hd ovr None input = POk u ->
+  exists ui h pt p q f, auth_ok STNotSpecial sch ui h pt p q f /\ u = auth_url sch ui h pt p q f.
+Proof.
+  intros Hu Hs Hns Hss. unfold parse_url. rewrite Hs. unfold parse_with_scheme. rewrite Hns.
+  destruct (to_u32 (nlen sch)) as [se| |] eqn:Eu; cbn [pbind]; try discriminate.
+  apply to_u32_inv in Eu. destruct Eu as [-> Hb0].
+  pose proof (scheme_rem_usv input sch rem Hu Hs) as Hur.
+  pose proof (split_prefix_str_usv s_ss rem rem' Hur Hss) as Hur'.
+  unfold parse_non_special. rewrite Hss.
+  apply ads_out; [exact (parse_scheme_out _ _ _ Hs) | exact Hns | exact Hur'].
 Qed.
 
 End WithOvr.
